@@ -24,7 +24,12 @@ MANIFEST = dict(
          'root, listed once under a fresh tag, all children listed, leaves not extended), routes (three legal types, '
          '`deprecated by` an existing route version), patches (the definition with the canonical name of the patch is a '
          'struct / union of the same kind and closedness; no member of a patch is a declared member of the type or a '
-         'member of another patch of it; the merged declaration obeys the rules for structs and unions). Corollaries: `legal_accepted` (a spec that violates none is never '
+         'member of another patch of it; the merged declaration obeys the rules for structs and unions), applied '
+         'annotations (every `@name` is an annotation definition of the namespace or an imported one; on a member at most '
+         'one Deprecated, one Preview - never both -, one Omitted, one redactor; on an alias only redactors - at most one - '
+         'and custom annotations; a redactor goes on the alias definition, not on a member whose type is an alias; the '
+         'annotated type, aliases and nullables unfolded, carries no redactor of its own and is, through lists and maps, '
+         'neither a struct / union nor Void). Corollaries: `legal_accepted` (a spec that violates none is never '
          'refused, and none of the model`s recursion bounds is hit), `violation_refused` (any violation, anywhere, in any '
          'order, is refused), `compile_error_sound` (every error kind is only produced on illegal input), '
          '`acceptance_by_rules`, `buildEnv_ok_iff`. The only hypothesis is `nsLexical` (namespace names contain no "/": '
@@ -78,13 +83,16 @@ MANIFEST = dict(
          'statement of the reference rules.',
     note='Trusted: Lean kernel, translator, generators and injectors (what they never produce is never checked), CPython re '
          '(whether a pattern compiles is an external parameter of the model), the REAL parser as the producer of the '
-         'compile model`s input. The iff for whole specs is PROVED for the compile model`s subset (no docs, annotations '
-         'applied to members, examples, route attributes, default values; type references with mixed literal / '
+         'compile model`s input. The iff for whole specs is PROVED for the compile model`s subset (no docs, '
+         'examples, route attributes, default values, arguments of annotation definitions and annotation types; type references with mixed literal / '
          'type positional arguments or a type passed by keyword are outside its input) and observed by testing beyond it. '
          'compile_ok_iff_legal does not say WHICH error kind an illegal input gets (several violations: the order of the '
          'passes decides; single violations: compared by comp.compile), and the fuel / internal answers of the model are '
          'proved unreachable on legal input only (on illegal input they would still be a refusal; the suite counts them as '
-         'disagreements, none occurs). Not judged: booleans used as numeric arguments, null for an optional argument, min > max for '
+         'disagreements, none occurs). The annotation tests are modelled as one stage after the type passes (the code '
+         'applies annotations while it creates each member and validates redactors in a last pass): the same verdict; '
+         'when a spec breaks an annotation rule AND a type rule met later in pass 3 the code reports the former, the '
+         'model the latter. Patches are taken in file order (the code groups them by canonical name first). Not judged: booleans used as numeric arguments, null for an optional argument, min > max for '
          'numeric bounds, indentation of the first line of a file, which of several errors is reported, Void as a List / '
          'Map element, whether a String pattern must cover the whole example string or only a prefix, a non-string where '
          'a Timestamp is expected, a `:type:` / `:field:` reference through an alias of a struct, the case of a reference tag, '
@@ -133,7 +141,7 @@ def run(ck):
         'argument lists come from the parser: literals, null, or type references (resolved before the outer reference)',
     ])
     ck.note('accepted = legal is PROVED for the compile model (type graph) and its rule set is compared with the real '
-            'compiler (comp.legal); for everything the model leaves out (docs, annotations on members, examples, '
+            'compiler (comp.legal); for everything the model leaves out (docs, examples, '
             'route attributes, default values) acceptance / refusal of whole specs is evaluated by testing')
     return ck.finish(rule=fe_rules.RULE)
 
